@@ -24,9 +24,12 @@ def overridersOf' (check : Str) : List Str :=
 
 /-- pass fixtures are allowed at their level and version; fail fixtures are rejected by the control they are named for
     (or by the restricted control that overrides it) -/
-def fixtureOk (f : Fixture) : Bool :=
-  let rs := (spec shipped f.level f.minor).map (fun r => (r, run Generated.tables false r (apiDefault f.pod)))
+def fixtureOkWith (relax : Bool) (f : Fixture) : Bool :=
+  let rs := (spec shipped f.level f.minor).map (fun r => (r, run Generated.tables relax r (apiDefault f.pod)))
   if f.pass then rs.all (·.2.allowed)
   else rs.any (fun x => !x.2.allowed && (revCheckId x.1 == f.check || (overridersOf' f.check).contains (revCheckId x.1)))
+
+/-- the fixtures are published for the default configuration: the user-namespace switch off -/
+def fixtureOk (f : Fixture) : Bool := fixtureOkWith false f
 
 end PSA
